@@ -202,6 +202,20 @@ def validate(data):
         return result
     wb = trees[wb_part]
     wb_rels = read_rels(wb_part)
+    # the main part's content type and the macro payload go together: a package that carries a VBA project
+    # is a macro-enabled workbook (Excel refuses a plain workbook with a vbaProject part)
+    main_ct = None
+    for c in ct:
+        if local(c.tag) == "Override" and (c.get("PartName") or "").lstrip("/") == wb_part:
+            main_ct = c.get("ContentType") or ""
+    has_vba = any(typ.endswith("/vbaProject") for (typ, tgt, ext) in wb_rels.values())
+    if has_vba and main_ct is not None and "macroEnabled" not in main_ct:
+        errors.append("workbook has a vbaProject relationship but the main part's content type is %s" % main_ct)
+    if main_ct is None:
+        errors.append("no Override content type for the main part %s" % wb_part)
+    for n in files:
+        if n.endswith("vbaProject.bin") and not has_vba:
+            errors.append("part %s is not the target of a vbaProject relationship of the workbook" % n)
     wb_dir = dir_of(wb_part)
     sst, n_xfs, n_dxfs = [], None, 0
     for rid, (typ, tgt, ext) in wb_rels.items():
